@@ -20,7 +20,7 @@ import ast
 from fractions import Fraction as F
 
 from ..loader import AnalysisError
-from ..pe import PE, PyRaise, Tensor, Obj, Func, Mock
+from ..pe import PE, PyRaise, Tensor, Obj, Func, Mock, NArr
 from .. import quant, qref, prims
 from ..qir import Fwd, equal_mod_finite
 from ..nf import NF, show
@@ -367,8 +367,8 @@ def run(rep, repo, tier):
         ctx = {}
         if isinstance(v, tuple):
           v, ctx = v
-        if v is PTS:
-          continue   # a tensor-valued scale has no text form
+        if v is PTS or isinstance(v, NArr):
+          continue   # tensor / array valued scales have no text form
         kw = dict(base)
         kw.update(ctx)
         kw[p] = v
